@@ -84,14 +84,25 @@ def run_shard(ctx: Ctx) -> None:
     def body(steps: Any) -> None:
         import gc
 
-        for k, (s, name, vals) in enumerate(steps):
-            rec.frontend_attempts += 1
-            fcp, text, err = frontend.parse_schema(s)
-            if fcp is None:
-                rec.rejected_by_frontend += 1
-                if k == 0:
-                    return
-                continue
+        fcp = None
+        for k, step in enumerate(steps):
+            s, name, vals = step[:3]
+            if len(step) > 3 and step[3] == "inplace":
+                if fcp is None:
+                    continue
+                CC.renumber_in_place(fcp, s)
+                text = "(the previous schema object, field ids and declaration order edited in place) " + CC.printer.to_text(s)
+                rec.cls("after_in_place_edit")
+            else:
+                fcp = None
+                gc.collect()
+                rec.frontend_attempts += 1
+                fcp, text, err = frontend.parse_schema(s)
+                if fcp is None:
+                    rec.rejected_by_frontend += 1
+                    if k == 0:
+                        return
+                    continue
             for j, v in enumerate(vals):
                 if (j + len(vals)) % 3 == 0:
                     CC.poison(fcp, s, name, v, j + k)
@@ -112,9 +123,6 @@ def run_shard(ctx: Ctx) -> None:
                     if k:
                         msg = f"after {k} same-named schema(s) were used in this process: " + msg
                     raise Violation(msg, cj)
-            # drop the schema object before the next one is loaded (an edited file re-loaded by a long-lived tool)
-            del fcp
-            gc.collect()
 
     hyp_run(ctx, CC.codec_history(ctx.tier, n_values), body, ctx.n(3000, 24000))
 
@@ -132,18 +140,25 @@ def replay(case: Dict[str, Any]) -> Optional[str]:
     if case.get("history_pickle"):
         import gc
 
-        for hk, (hs, hname, hvals) in enumerate(unpickle_b64(case["history_pickle"])):
-            fcp, _t, err = frontend.parse_schema(hs)
-            if fcp is None:
-                continue
+        fcp = None
+        for hk, hstep in enumerate(unpickle_b64(case["history_pickle"])):
+            hs, hname, hvals = hstep[:3]
+            if len(hstep) > 3 and hstep[3] == "inplace":
+                if fcp is None:
+                    continue
+                CC.renumber_in_place(fcp, hs)
+            else:
+                fcp = None
+                gc.collect()
+                fcp, _t, err = frontend.parse_schema(hs)
+                if fcp is None:
+                    continue
             for hj, hv in enumerate(hvals):
                 if (hj + len(hvals)) % 3 == 0:
                     CC.poison(fcp, hs, hname, hv, hj + hk)
                 msg = check_value(fcp, hs, hname, hv, load_known("C01"))
                 if msg:
                     return msg
-            del fcp
-            gc.collect()
         return None
     s = unpickle_b64(case["schema_pickle"])
     v = unpickle_b64(case["value_pickle"])
